@@ -9,7 +9,12 @@ from ..astutil import call_name, calls_in, dotted, guard_atoms, lexical_guards, 
 from ..astutil import func_defaults
 from ..index import FuncInfo
 from ..report import Registry, sub
-from ._helpers_rules_a import OPAQUE, SymExec, SymV, Unsupported
+from ..astutil import parent_map
+from ._helpers_rules_a import OPAQUE, SymExec as _SymExecBase, SymV, Unsupported
+from ._helpers_rob_c1 import inline_locals
+from ._helpers_rob_g1 import normal_form
+from ._helpers_rob_h2 import Abs, Opq, PathInterp
+from ._helpers_rob_h2 import Unsupported as PathUnsupported
 
 R = Registry(
     "C18",
@@ -36,10 +41,146 @@ L, O, F = SymV("limit"), SymV("offset"), SymV("fetch")
 CMP = {ast.Gt: ">", ast.GtE: ">=", ast.Lt: "<", ast.LtE: "<=", ast.Eq: "==", ast.NotEq: "!="}
 
 
-def _hooks(case, selectvars=None):
+class _HelperRaises(Exception):
+    pass
+
+
+class SymExec(_SymExecBase):
+    """SymExec + the other spellings of string building (f-strings, "..".format(..), " ".join([..]), list literals) and
+    helper following inside expressions: a call of a method of the same class / a function of the same module that the
+    hooks do not interpret is executed symbolically with the evaluated arguments (`text += self._offset_text(select, **kw)`);
+    a helper with several distinct outcomes inside an expression is not understood (Unsupported -> exit 2)."""
+
+    def __init__(self, attr=None, call=None, what="function", follow=None, depth=0):
+        super().__init__(attr=attr, call=call, what=what)
+        self.follow = follow  # (ctx, FuncInfo of the function under analysis)
+        self.depth = depth
+
+    @staticmethod
+    def _txt(x):
+        return x if isinstance(x, str) else repr(x)
+
+    def _callee(self, n):
+        if self.follow is None or self.depth >= 2:
+            return None
+        ctx, f = self.follow
+        fn = n.func
+        tgt = None
+        if isinstance(fn, ast.Attribute) and isinstance(fn.value, ast.Name) and fn.value.id in ("self", "cls") and f.cls is not None:
+            tgt = ctx.index.resolve_method(f.cls, fn.attr)
+        elif isinstance(fn, ast.Name):
+            tgt = f.module.functions.get(fn.id)
+        if tgt is None or tgt.module is not f.module or tgt.node is f.node or tgt.name in _NF_SKIP or tgt.type_only \
+                or not isinstance(tgt.node, ast.FunctionDef):
+            return None
+        return tgt
+
+    def _follow_call(self, n, env, events):
+        tgt = self._callee(n)
+        if tgt is None:
+            return NotImplemented
+        ctx, f = self.follow
+        a = tgt.node.args
+        names = [x.arg for x in a.posonlyargs + a.args]
+        local = {}
+        free = list(names)
+        if tgt.cls is not None and free and free[0] in ("self", "cls") and "staticmethod" not in tgt.decorators:
+            local[free.pop(0)] = OPAQUE
+        pos = [x for x in n.args if not isinstance(x, ast.Starred)]
+        if len(pos) > len(free):
+            return NotImplemented
+        for nm, x in zip(free, pos):
+            local[nm] = self.ev(x, env, events)
+        for k in n.keywords:
+            v = self.ev(k.value, env, events)
+            if k.arg:
+                local[k.arg] = v
+        for nm, d in func_defaults(tgt.node).items():
+            if nm not in local:
+                local[nm] = d.value if isinstance(d, ast.Constant) else OPAQUE
+        ctx.functions_analysed.add(tgt.key)
+        sub_ = SymExec(attr=self.attr, call=self.call, what=tgt.key, follow=(ctx, tgt), depth=self.depth + 1)
+        try:
+            done = [p_ for p_ in sub_.run(tgt.node.body, local) if p_[0] != "raise"]
+        except Unsupported:
+            return NotImplemented  # a helper outside the subset stays an opaque call, as before
+        if not done:
+            raise _HelperRaises()  # the helper raises on every path: so does the caller's path
+        first = done[0]
+        for p_ in done[1:]:
+            if p_[1] != first[1] or p_[3] != first[3]:
+                return NotImplemented  # several distinct outcomes inside an expression: opaque
+        events.extend(first[3])
+        return first[1] if first[0] == "return" else None
+
+    def _block(self, stmts, env, events, cont):
+        try:
+            super()._block(stmts, env, events, cont)
+        except _HelperRaises:
+            self._finish("raise", None, env, events)
+
+    def ev(self, n, env, events):
+        if isinstance(n, ast.JoinedStr):
+            out = ""
+            for part in n.values:
+                if isinstance(part, ast.Constant):
+                    out += str(part.value)
+                elif isinstance(part, ast.FormattedValue):
+                    out += self._txt(self.ev(part.value, env, events))
+            return out
+        if isinstance(n, ast.List):
+            return tuple(self.ev(e, env, events) for e in n.elts)
+        if isinstance(n, ast.Call) and isinstance(n.func, ast.Attribute) and n.func.attr in ("format", "join") and not n.keywords:
+            recv = self.ev(n.func.value, env, events)
+            if isinstance(recv, str):
+                args = [self.ev(a, env, events) for a in n.args if not isinstance(a, ast.Starred)]
+                if len(args) == len(n.args):
+                    try:
+                        if n.func.attr == "format":
+                            return recv.format(*[self._txt(a) for a in args])
+                        if len(args) == 1 and isinstance(args[0], tuple):
+                            return recv.join(self._txt(a) for a in args[0])
+                    except Exception:
+                        return OPAQUE
+        if isinstance(n, ast.Call):
+            if self.call is not None:
+                r = self.call(n, env, self, events)
+                if r is not NotImplemented:
+                    return r
+            n0 = len(events)
+            r = self._follow_call(n, env, events)
+            if r is not NotImplemented:
+                return r
+            del events[n0:]
+            # the base class's default for a call nobody interprets (without consulting the hook a second time)
+            if isinstance(n.func, ast.Attribute):
+                self.ev(n.func.value, env, events)
+            for a in n.args:
+                self.ev(a.value if isinstance(a, ast.Starred) else a, env, events)
+            for k in n.keywords:
+                self.ev(k.value, env, events)
+            return OPAQUE
+        return super().ev(n, env, events)
+
+
+# callees the symbolic hooks interpret by name: they stay calls, every other same-module helper / method of the class
+# called at statement level (`self._helper(..)`, `x = self._helper(..)`, `return self._helper(..)`) is inlined first
+_NF_SKIP = ("_get_limit_or_fetch", "limit_clause", "fetch_clause", "_row_limit_clause", "_use_top", "process")
+
+
+def _nf(ctx, f):
+    """FuncInfo copy of `f` with extracted helpers inlined (the inverse of 'extract method')."""
+    return normal_form(ctx, f, skip=_NF_SKIP, depth=2, aliases=False)
+
+
+def _hooks(case, selectvars=None, force=None):
     """case = dict(limit=.., offset=.., fetch=..) of SymV or None."""
 
+    force = force or {}
+
     def attr(n, env, sx, events):
+        if n.attr in force:
+            return force[n.attr]
         if n.attr == "_limit_clause":
             return case["limit"]
         if n.attr == "_offset_clause":
@@ -52,6 +193,8 @@ def _hooks(case, selectvars=None):
         f = n.func
         nm = call_name(n) or ""
         short = nm.rsplit(".", 1)[-1]
+        if short == "getattr" and len(n.args) >= 2 and isinstance(n.args[1], ast.Constant) and n.args[1].value in force:
+            return force[n.args[1].value]
         if short == "render_literal_execute" and isinstance(f, ast.Attribute):
             return sx.ev(f.value, env, events)
         if short in ("column", "literal_column") and n.args and isinstance(n.args[0], ast.Constant):
@@ -121,11 +264,12 @@ EXPECT = {
 def r1(ctx):
     for ckey in (MSSQL, ORACLE):
         f = ctx.method(ckey, "translate_select_structure")
+        fbody = _nf(ctx, f).node.body
         for cname, case in CASES.items():
             key = f"{f.key}:{cname}"
             attr, call = _hooks(case)
-            sx = SymExec(attr=attr, call=call, what=f.key)
-            paths = sx.run(f.node.body, {})
+            sx = SymExec(attr=attr, call=call, what=f.key, follow=(ctx, f))
+            paths = sx.run(fbody, {})
             wrapped = [p for p in paths if any(e[0] == "wrap" for e in p[3])]
             if not wrapped:
                 ctx.violation(key, "no path builds the row-number wrapper for this combination", f.loc)
@@ -190,12 +334,12 @@ def _run_cases(ctx, f: FuncInfo, cases, extra_env=None):
     out = {}
     for cname, case in cases.items():
         attr, call = _hooks(case)
-        sx = SymExec(attr=attr, call=call, what=f.key)
+        sx = SymExec(attr=attr, call=call, what=f.key, follow=(ctx, f))
         env = {}
         for p, d in func_defaults(f.node).items():
             env[p] = d.value if isinstance(d, ast.Constant) else OPAQUE
         env.update(extra_env or {})
-        out[cname] = sx.run(f.node.body, env)
+        out[cname] = sx.run(_nf(ctx, f).node.body, env)
     return out
 
 
@@ -230,6 +374,8 @@ def r2(ctx):
                 ctx.check(has_alt, key, "limit_clause renders nothing and the class has no _row_limit_clause override / wrapper",
                           "rendered by _row_limit_clause / translate_select_structure", f.loc)
                 continue
+            ctx.require(not any("‹?›" in t for t in texts),
+                        f"{key}: a fragment of the rendered clause is not understood: {sorted(texts)}")
             for t in sorted(texts):
                 p = _parse_limit_text(t)
                 if isinstance(p, str):
@@ -329,73 +475,147 @@ def r2(ctx):
 def r3(ctx):
     for ckey, marker in ((MSSQL, "_mssql_visit"), (ORACLE, "_oracle_visit")):
         f = ctx.method(ckey, "translate_select_structure")
-        pm = f.module.parents()
-        wraps = [c for c in calls_in(f.node) if (call_name(c) or "") in ("sql.select", "select")]
-        ctx.require(wraps, f"{f.key}: no sql.select() wrapper construction")
+        f2 = _nf(ctx, f)
+        fbody = f2.node.body
+        # Decided by experiment, not by the shape of the guard: the method is executed symbolically for the three
+        # limit/offset combinations with ONE fact forced; no path may then build the wrapper.  An inverted test with an
+        # early return, De Morgan, nested ifs, a named boolean local or an extracted helper all give the same paths.
+        base_n, base_total = _wrap_paths(ctx, f, fbody, {})
+        ctx.require(base_n > 0, f"{f.key}: no path builds a sql.select() wrapper ({base_total} paths)")
         problems = []
-        for c in wraps:
-            atoms = guard_atoms(lexical_guards(pm, c, stop=f.node))
-            txt = {(a, p) for a, p in atoms}
-            if not any(a.endswith("._has_row_limiting_clause") and p for a, p in txt):
-                problems.append(f"line {c.lineno}: wrapper not guarded by _has_row_limiting_clause")
-            if not any(a.endswith("dialect._supports_offset_fetch") and not p for a, p in txt):
-                problems.append(f"line {c.lineno}: wrapper also built when OFFSET/FETCH is supported")
-            if not any(marker in a and not p for a, p in txt):
-                problems.append(f"line {c.lineno}: wrapper not guarded against re-entry ({marker})")
-        ctx.check(not problems, f.key + ":guards", "; ".join(problems), f"{len(wraps)} wrapper construction(s) guarded", f.loc)
+        for force, msg in (
+                ({"_has_row_limiting_clause": False}, "the wrapper is also built for a statement without LIMIT/OFFSET/FETCH (not guarded by _has_row_limiting_clause)"),
+                ({"_supports_offset_fetch": True}, "the wrapper is also built when OFFSET/FETCH is supported"),
+                ({marker: True}, f"the wrapper is not guarded against re-entry ({marker}): it is applied again when the subquery is compiled")):
+            n, _t = _wrap_paths(ctx, f, fbody, force)
+            if n:
+                problems.append(f"{msg} [{n} wrapper path(s) with {next(iter(force))} = {next(iter(force.values()))}]")
+        ctx.check(not problems, f.key + ":guards", "; ".join(problems), f"{base_n} wrapper path(s); none when a guard fact is negated", f.loc)
         # the regenerated statement (still carrying limit/offset) must be flagged before it is wrapped as a
         # subquery, otherwise compiling the subquery applies the wrapper again
-        g = ctx.cfg(f)
-        gens = [n for n in walk_local(f.node) if isinstance(n, ast.Assign) and isinstance(n.targets[0], ast.Name)
+        g = ctx.cfg(f2.node)
+        gens = [n for n in walk_local(f2.node) if isinstance(n, ast.Assign) and isinstance(n.targets[0], ast.Name)
                 and isinstance(n.value, ast.Call) and isinstance(n.value.func, ast.Attribute) and n.value.func.attr == "_generate"]
-        ctx.require(len(gens) == 1, f"{f.key}: expected one `x = select._generate()`")
-        var = gens[0].targets[0].id
-        marks = [n for n in walk_local(f.node) if isinstance(n, ast.Assign) and isinstance(n.targets[0], ast.Attribute)
-                 and n.targets[0].attr == marker and isinstance(n.targets[0].value, ast.Name) and n.targets[0].value.id == var
-                 and isinstance(n.value, ast.Constant) and n.value.value is True]
-        aliases = [n for n in walk_local(f.node) if isinstance(n, ast.Assign)
-                   and any(isinstance(c, ast.Call) and isinstance(c.func, ast.Attribute) and c.func.attr == "alias"
-                           and any(isinstance(x, ast.Name) and x.id == var for x in ast.walk(c.func.value)) for c in ast.walk(n.value))]
-        ctx.require(aliases, f"{f.key}: the regenerated select is never aliased into a subquery")
+        ctx.require(gens, f"{f.key}: expected `x = select._generate()`")
         from ..cfg import no_exc
-        w = g.must_pass([i for i in g.nodes_for(gens[0])], [i for a in aliases for i in g.nodes_for(a)],
-                        [i for m_ in marks for i in g.nodes_for(m_)], edge_ok=no_exc)
-        ctx.check(bool(marks) and w is None, f.key + ":marker",
+        ok_all, wit, var = True, None, None
+        for gen in gens:
+            var = gen.targets[0].id
+            marks = [n for n in walk_local(f2.node) if isinstance(n, ast.Assign) and isinstance(n.targets[0], ast.Attribute)
+                     and n.targets[0].attr == marker and isinstance(n.targets[0].value, ast.Name) and n.targets[0].value.id == var
+                     and isinstance(n.value, ast.Constant) and n.value.value is True]
+            marks += [n for n in walk_local(f2.node) if isinstance(n, ast.Expr) and isinstance(n.value, ast.Call)
+                      and (call_name(n.value) or "") == "setattr" and len(n.value.args) == 3 and isinstance(n.value.args[0], ast.Name)
+                      and n.value.args[0].id == var and isinstance(n.value.args[1], ast.Constant) and n.value.args[1].value == marker
+                      and isinstance(n.value.args[2], ast.Constant) and n.value.args[2].value is True]
+            aliases = [n for n in walk_local(f2.node) if isinstance(n, ast.stmt) and not isinstance(n, (ast.If, ast.For, ast.While, ast.With, ast.Try))
+                       and any(isinstance(c, ast.Call) and isinstance(c.func, ast.Attribute) and c.func.attr in ("alias", "subquery")
+                               and any(isinstance(x, ast.Name) and x.id == var for x in ast.walk(c.func.value)) for c in ast.walk(n))]
+            ctx.require(aliases, f"{f.key}: the regenerated select is never aliased into a subquery")
+            w = g.must_pass([i for i in g.nodes_for(gen)], [i for a in aliases for i in g.nodes_for(a)],
+                            [i for m_ in marks for i in g.nodes_for(m_)], edge_ok=no_exc)
+            if not marks or w is not None:
+                ok_all, wit = False, w
+        ctx.check(ok_all, f.key + ":marker",
                   f"the regenerated select is wrapped as a subquery without `{var}.{marker} = True` (the wrapper would be applied again)",
-                  f"{marker} set before aliasing", f.loc, w)
+                  f"{marker} set before aliasing", f.loc, wit)
     f = ctx.method(MSSQL, "translate_select_structure")
-    over = [c for c in calls_in(f.node) if isinstance(c.func, ast.Attribute) and c.func.attr == "over"]
-    ctx.require(len(over) == 1, f"{f.key}: expected one .over(...) call")
-    ob = {k.arg: k.value for k in over[0].keywords}.get("order_by")
-    src = None
-    if isinstance(ob, ast.Name):
-        binds = [v for n, v, st in name_stores(f.node) if n == ob.id and v is not None]
-        src = binds[0] if len(binds) == 1 else None
-    elif ob is not None:
-        src = ob
-    ok = src is not None and "_order_by_clause" in unparse(src)
-    rn = dotted(over[0].func.value.func) if isinstance(over[0].func.value, ast.Call) else ""
-    ctx.check(ok and (rn or "").upper().endswith("ROW_NUMBER"), f.key + ":order",
+    f2 = _nf(ctx, f)
+    over = [c for c in calls_in(f2.node) if isinstance(c.func, ast.Attribute) and c.func.attr == "over"]
+    ctx.require(len(over) >= 1, f"{f.key}: expected an .over(...) call")
+    ok = True
+    for ov in over:
+        ob = {k.arg: k.value for k in ov.keywords}.get("order_by")
+        rn = dotted(ov.func.value.func) if isinstance(ov.func.value, ast.Call) else ""
+        ok = ok and ob is not None and "_order_by_clause" in _feeds(f2.node, ob) and (rn or "").upper().endswith("ROW_NUMBER")
+    ctx.check(ok, f.key + ":order",
               "ROW_NUMBER() is not computed OVER the statement's ORDER BY clauses", "ROW_NUMBER() OVER (ORDER BY <order by>)", f.loc)
-    chk = ctx.method(MSSQL, "_check_can_use_fetch_limit")
-    g = ctx.cfg(f)
-    calls = g.find_calls("_check_can_use_fetch_limit")
-    wrapn = g.find_calls("sql.select")
-    dominated = bool(calls) and all(g.always_preceded(w, calls) is None for w in wrapn)
-    raises_on_empty = any(isinstance(n, ast.If) and "_order_by_clause.clauses" in unparse(n.test)
-                          and any(isinstance(x, ast.Raise) for x in ast.walk(n)) for n in walk_local(chk.node))
-    ctx.check(dominated and raises_on_empty, f.key + ":order-required",
+    # an empty ORDER BY is rejected before the wrapper is built: with `_order_by_clause.clauses` forced empty no path
+    # builds it (the checker helper is inlined by the normal form; if it cannot be inlined: a call of a method of the
+    # class that raises under a test on _order_by_clause dominates every wrapper construction)
+    n_empty, _t = _wrap_paths(ctx, f, f2.node.body, {"clauses": None})
+    good = n_empty == 0
+    if not good:
+        g = ctx.cfg(f2.node)
+        cls = ctx.index.cls(MSSQL)
+        cnodes = []
+        for c in calls_in(f2.node):
+            nm = call_name(c) or ""
+            if nm.startswith("self.") and nm.count(".") == 1:
+                tgt = ctx.index.resolve_method(cls, nm.split(".")[1])
+                if tgt is not None and _rejects_empty_order_by(tgt):
+                    cnodes.extend(g.nodes_containing(c))
+        wrapn = [i for c in calls_in(f2.node) if (call_name(c) or "") in ("sql.select", "select", "expression.select") for i in g.nodes_containing(c)]
+        good = bool(cnodes) and bool(wrapn) and all(g.always_preceded(w, cnodes) is None for w in wrapn)
+    ctx.check(good, f.key + ":order-required",
               "the wrapper can be built without first rejecting an empty ORDER BY (row numbers would be arbitrary)",
               "CompileError without ORDER BY", f.loc)
     f = ctx.method(ORACLE, "translate_select_structure")
-    strips = [c for c in calls_in(f.node) if isinstance(c.func, ast.Attribute) and c.func.attr == "order_by"]
-    rownum = [c for c in calls_in(f.node) if (call_name(c) or "").endswith("literal_column") and c.args
+    f2 = _nf(ctx, f)
+    strips = [c for c in calls_in(f2.node) if isinstance(c.func, ast.Attribute) and c.func.attr == "order_by"]
+    rownum = [c for c in calls_in(f2.node) if (call_name(c) or "").endswith("literal_column") and c.args
               and isinstance(c.args[0], ast.Constant) and c.args[0].value == "ROWNUM"]
-    inner_alias = [n for n in walk_local(f.node) if isinstance(n, ast.Assign) and isinstance(n.value, ast.Call)
-                   and isinstance(n.value.func, ast.Attribute) and n.value.func.attr == "alias"]
+    inner_alias = [c for c in calls_in(f2.node) if isinstance(c.func, ast.Attribute) and c.func.attr in ("alias", "subquery")]
     ctx.check(not strips and bool(rownum) and bool(inner_alias), f.key + ":order",
               "the inner (ordered) select is re-ordered / ROWNUM is not applied outside an aliased ordered subquery",
               "ROWNUM over aliased ordered inner select", f.loc)
+
+
+def _wrap_paths(ctx, f, fbody, force):
+    """(number of symbolic paths that build a sql.select() wrapper, number of paths) over the three limit/offset
+    combinations, with the attribute / getattr() values in `force` fixed."""
+    n = total = 0
+    for cname, case in CASES.items():
+        attr, call = _hooks(case, force=force)
+        paths = SymExec(attr=attr, call=call, what=f.key, follow=(ctx, f)).run(fbody, {})
+        total += len(paths)
+        n += sum(1 for p in paths if any(e[0] == "wrap" for e in p[3]))
+    return n, total
+
+
+def _feeds(fnode, expr, depth=0, seen=None):
+    """Attribute names the value of `expr` is (transitively) computed from inside `fnode`: through plain assignments,
+    loop targets (`for x in <iter>`), comprehensions and container fills (`name.append(v)`, `name.extend(v)`,
+    `name[k] = v`, `name += v`)."""
+    seen = set() if seen is None else seen
+    out = set()
+    for n in ast.walk(expr):
+        if isinstance(n, ast.Attribute):
+            out.add(n.attr)
+        elif isinstance(n, ast.Name) and n.id not in seen and depth < 6:
+            seen.add(n.id)
+            for src in _sources_of(fnode, n.id):
+                out |= _feeds(fnode, src, depth + 1, seen)
+    return out
+
+
+def _sources_of(fnode, name):
+    out = []
+    for n in ast.walk(fnode):
+        if isinstance(n, ast.Assign) and any(isinstance(t, ast.Name) and t.id == name for tt in n.targets for t in ast.walk(tt)):
+            out.append(n.value)
+        elif isinstance(n, ast.Assign) and any(isinstance(t, ast.Subscript) and isinstance(t.value, ast.Name) and t.value.id == name for t in n.targets):
+            out.append(n.value)
+        elif isinstance(n, (ast.AnnAssign, ast.AugAssign)) and isinstance(n.target, ast.Name) and n.target.id == name and n.value is not None:
+            out.append(n.value)
+        elif isinstance(n, (ast.For, ast.comprehension)) and any(isinstance(t, ast.Name) and t.id == name for t in ast.walk(n.target)):
+            out.append(n.iter)
+        elif isinstance(n, ast.Call) and isinstance(n.func, ast.Attribute) and isinstance(n.func.value, ast.Name) and n.func.value.id == name \
+                and n.func.attr in ("append", "extend", "insert", "add", "update"):
+            out.extend(n.args)
+        elif isinstance(n, ast.NamedExpr) and isinstance(n.target, ast.Name) and n.target.id == name:
+            out.append(n.value)
+    return out
+
+
+def _rejects_empty_order_by(fn: FuncInfo) -> bool:
+    pm = fn.module.parents()
+    for r in ast.walk(fn.node):
+        if isinstance(r, ast.Raise):
+            for t, pol in lexical_guards(pm, r, stop=fn.node):
+                if "_order_by_clause" in unparse(inline_locals(fn.node, t)):
+                    return True
+    return False
 
 
 # ------------------------------------------------------------------------------------------ R4 (str-e)
@@ -473,47 +693,108 @@ def _value_preserving(fn: FuncInfo) -> bool:
     return True
 
 
-class SliceExec(SymExec):
-    """SymExec + integer/linear arithmetic and ==/!= on it; same-module one-argument coercions are the identity."""
+class _SlicePaths(PathInterp):
+    """PathInterp + integer / linear arithmetic and ==/!= on it.  Same-module one-argument coercions are the identity;
+    every other same-module function is followed (an extracted `_add_to_offset(offset, start)` is part of the computation),
+    early returns included."""
 
-    def __init__(self, index, module, what):
-        super().__init__(attr=None, call=self._call, what=what)
+    def __init__(self, index, target):
+        super().__init__(call=self._call, resolver=self._resolve, what=target.key)
         self.index = index
-        self.module = module
+        self.module = target.module
+        self.target = target
 
-    def _call(self, n, env, sx, events):
-        if isinstance(n.func, ast.Name) and len(n.args) >= 1 and not n.keywords:
+    def _lookup(self, n):
+        if isinstance(n.func, ast.Name):
             r = self.index.resolve(self.module, n.func.id)
-            if isinstance(r, FuncInfo) and _value_preserving(r) and len(n.args) == 1:
-                return self.ev(n.args[0], env, events)
+            if isinstance(r, FuncInfo) and r.node is not self.target.node:
+                return r
+        return None
+
+    def _call(self, n, fval, args, kwargs, env, ix):
+        r = self._lookup(n)
+        if r is not None and len(args) == 1 and not kwargs and _value_preserving(r):
+            return args[0]
         return NotImplemented
 
-    def ev(self, n, env, events):
+    def _resolve(self, n, fval):
+        r = self._lookup(n)
+        if r is not None and r.module is self.module and isinstance(r.node, ast.FunctionDef):
+            return (r.node, {})
+        return None
+
+    def truth(self, v):
+        if isinstance(v, Lin):
+            nz = v.nonzero()
+            return self.decide(f"nonzero:{v!r}") if nz is None else nz
+        return super().truth(v)
+
+    def ev(self, n, env):
         if isinstance(n, ast.BinOp) and isinstance(n.op, (ast.Add, ast.Sub)):
-            a, b = self.ev(n.left, env, events), self.ev(n.right, env, events)
+            a, b = self.ev(n.left, env), self.ev(n.right, env)
             la, lb = Lin.of(a), Lin.of(b)
             if la is not None and lb is not None:
                 return la._comb(lb, 1 if isinstance(n.op, ast.Add) else -1)
-            return OPAQUE
-        return super().ev(n, env, events)
-
-    def truth(self, n, env, events):
+            return Opq(unparse(n))
         if isinstance(n, ast.Compare) and len(n.ops) == 1 and isinstance(n.ops[0], (ast.Eq, ast.NotEq)):
-            a, b = self.ev(n.left, env, events), self.ev(n.comparators[0], env, events)
+            a, b = self.ev(n.left, env), self.ev(n.comparators[0], env)
             la, lb = Lin.of(a), Lin.of(b)
+            eq = isinstance(n.ops[0], ast.Eq)
             if la is not None and lb is not None:
-                nz = la._comb(lb, -1).nonzero()
+                d = la._comb(lb, -1)
+                nz = d.nonzero()
                 if nz is None:
-                    return None
-                return (not nz) if isinstance(n.ops[0], ast.Eq) else nz
-            if (a is None) != (b is None) and a is not OPAQUE and b is not OPAQUE:
-                return isinstance(n.ops[0], ast.NotEq)
-            return None
-        if isinstance(n, (ast.Name, ast.Attribute, ast.Call, ast.BinOp)):
-            v = self.ev(n, env, events)
-            if isinstance(v, Lin):
-                return v.nonzero()
-        return super().truth(n, env, events)
+                    nz = self.decide(f"nonzero:{d!r}")
+                return (not nz) if eq else nz
+            if (a is None) != (b is None) and not isinstance(a, Abs) and not isinstance(b, Abs):
+                return not eq
+            return Opq(unparse(n))
+        return super().ev(n, env)
+
+
+def _resolved(cf, e):
+    """`e` with the once-bound locals of the calling function replaced by their values (`lim = self._limit_clause`)."""
+    try:
+        return inline_locals(cf.node, e)
+    except Exception:
+        return e
+
+
+def _self_attr_role(e):
+    if isinstance(e, ast.Attribute) and isinstance(e.value, ast.Name) and e.value.id == "self":
+        return {"_limit_clause": "limit", "_offset_clause": "offset"}.get(e.attr)
+    return None
+
+
+def _result_order(cf, pm, cc):
+    """In which order the (limit, offset) result of the call is stored into self._limit_clause / self._offset_clause:
+    `self.a, self.b = call`, `a, b = call` + `self.x = a` ..., `r = call` + `self.x = r[0]` ...; None if not understood."""
+    st = pm.get(cc)
+    if not (isinstance(st, ast.Assign) and len(st.targets) == 1):
+        return None
+    tgt = st.targets[0]
+    stores = [(t, n) for n in walk_local(cf.node) if isinstance(n, ast.Assign) for t in n.targets if _self_attr_role(t)]
+    if isinstance(tgt, ast.Tuple):
+        order = []
+        for t in tgt.elts:
+            role = _self_attr_role(t)
+            if role is None and isinstance(t, ast.Name):
+                roles = {_self_attr_role(a) for a, n in stores if isinstance(n.value, ast.Name) and n.value.id == t.id}
+                role = next(iter(roles)) if len(roles) == 1 else None
+            if role is None:
+                return None
+            order.append(role)
+        return order
+    if isinstance(tgt, ast.Name):
+        by_index = {}
+        for a, n in stores:
+            v = n.value
+            if isinstance(v, ast.Subscript) and isinstance(v.value, ast.Name) and v.value.id == tgt.id and isinstance(v.slice, ast.Constant) \
+                    and isinstance(v.slice.value, int):
+                by_index.setdefault(v.slice.value, set()).add(_self_attr_role(a))
+        if sorted(by_index) == [0, 1] and all(len(v) == 1 for v in by_index.values()):
+            return [next(iter(by_index[0])), next(iter(by_index[1]))]
+    return None
 
 
 def _slice_sites(ctx, target):
@@ -535,26 +816,17 @@ def _slice_sites(ctx, target):
     for cf, cc in found:
         own = [p for p in cf.params if p not in ("self", "cls")]
         roles = {}
-        for i, a in enumerate(cc.args):
-            if isinstance(a, ast.Attribute) and isinstance(a.value, ast.Name) and a.value.id == "self":
-                if a.attr == "_limit_clause":
-                    roles.setdefault("limit", i)
-                elif a.attr == "_offset_clause":
-                    roles.setdefault("offset", i)
+        tparams = list(target.params)
+        actual = [(i, a) for i, a in enumerate(cc.args)] + [(tparams.index(k.arg), k.value) for k in cc.keywords if k.arg in tparams]
+        for i, a0 in actual:
+            a = _resolved(cf, a0)
+            role = _self_attr_role(a)
+            if role is not None:
+                roles.setdefault(role, i)
             elif isinstance(a, ast.Name) and a.id in own[:2]:
                 roles.setdefault("start" if own.index(a.id) == 0 else "stop", i)
         pm = cf.module.parents()
-        st = pm.get(cc)
-        order = None
-        if isinstance(st, ast.Assign) and len(st.targets) == 1 and isinstance(st.targets[0], ast.Tuple):
-            order = []
-            for t in st.targets[0].elts:
-                if isinstance(t, ast.Attribute) and isinstance(t.value, ast.Name) and t.value.id == "self" \
-                        and t.attr in ("_limit_clause", "_offset_clause"):
-                    order.append("limit" if t.attr == "_limit_clause" else "offset")
-                else:
-                    order = None
-                    break
+        order = _result_order(cf, pm, cc)
         out.append((cf, cc, roles, order))
     return out
 
@@ -602,8 +874,11 @@ def r4(ctx):
                 npaths = 0
                 for lv in (None, L0):
                     env = {pname["limit"]: lv, pname["offset"]: ov, pname["start"]: sv, pname["stop"]: tv}
-                    sx = SliceExec(ctx.index, target.module, target.key)
-                    for kind, val, env2, events in sx.run(target.node.body, env):
+                    try:
+                        spaths = _SlicePaths(ctx.index, target).run_function(target.node, env)
+                    except PathUnsupported as e:
+                        ctx.require(False, f"{target.key}: {e}")
+                    for _assume, kind, val, events in spaths:
                         if kind == "raise":
                             continue
                         npaths += 1
@@ -614,7 +889,11 @@ def r4(ctx):
                         want_off = ov if sv is None else norm_off(ov)._comb(sv, 1)
                         want_lim = lv if tv is None else (tv if sv is None else tv._comb(sv, -1))
                         go, gl = got["offset"], got["limit"]
-                        if go is OPAQUE or gl is OPAQUE or not (go is None or isinstance(go, Lin)) or not (gl is None or isinstance(gl, Lin)):
+                        if isinstance(go, int) and not isinstance(go, bool):
+                            go = Lin.of(go)
+                        if isinstance(gl, int) and not isinstance(gl, bool):
+                            gl = Lin.of(gl)
+                        if not (go is None or isinstance(go, Lin)) or not (gl is None or isinstance(gl, Lin)):
                             unknown.append(f"a path returns {val!r}")
                             continue
                         if norm_off(go) != norm_off(want_off):
@@ -649,7 +928,8 @@ def _renders_fetch_value(f: FuncInfo):
     to it, or the result of a limit-or-fetch helper)"""
     fetchy = set()
     for n, v, st in name_stores(f.node):
-        if v is not None and any((isinstance(x, ast.Attribute) and x.attr == "_fetch_clause") for x in ast.walk(v)):
+        if v is not None and any((isinstance(x, ast.Attribute) and x.attr == "_fetch_clause")
+                                 or (isinstance(x, ast.Call) and (call_name(x) or "").endswith("_get_limit_or_fetch")) for x in ast.walk(v)):
             fetchy.add(n)
     if "fetch_clause" in f.params:
         fetchy.add("fetch_clause")
@@ -666,17 +946,31 @@ def _renders_fetch_value(f: FuncInfo):
 
 
 def _raises_on_options(fn: FuncInfo) -> bool:
-    """A checker: raises under a test that reads both fetch options."""
+    """A checker: for each fetch option there is a `raise` under a positive test that reads it (one compound test, one
+    test per option, a named boolean local, tests after an early `return` all count)."""
     pm = fn.module.parents()
+    keys = set()
     for r in ast.walk(fn.node):
         if isinstance(r, ast.Raise):
-            keys = set()
             for t, pol in lexical_guards(pm, r, stop=fn.node):
                 if pol:
-                    keys |= _option_reads(t)
-            if keys >= set(OPTION_KEYS):
-                return True
-    return False
+                    keys |= _option_reads(_resolved(fn, t))
+    return keys >= set(OPTION_KEYS)
+
+
+def _option_reads_deep(ix, f: FuncInfo):
+    """option keys read by `f` or by the same-class / same-module helpers it calls (one level)."""
+    keys = _option_reads(f.node)
+    for c in calls_in(f.node):
+        fn = c.func
+        tgt = None
+        if isinstance(fn, ast.Attribute) and isinstance(fn.value, ast.Name) and fn.value.id == "self" and f.cls is not None:
+            tgt = ix.resolve_method(f.cls, fn.attr)
+        elif isinstance(fn, ast.Name):
+            tgt = f.module.functions.get(fn.id)
+        if tgt is not None and tgt.module is f.module and tgt.node is not f.node:
+            keys |= _option_reads(tgt.node)
+    return keys
 
 
 @R.rule("C18-R5", floor=6, template="T-SIBLING / T-GUARD (FETCH options reach every FETCH renderer)",
@@ -698,7 +992,7 @@ def r5(ctx):
     ctx.require(len(renderers) >= 3, f"FETCH renderers not found ({[f.key for f in renderers]})")
     for f in renderers:
         ctx.functions_analysed.add(f.key)
-        keys = _option_reads(f.node)
+        keys = _option_reads_deep(ix, f)
         ctx.check(keys >= set(OPTION_KEYS), f"{f.key}:fetch-options",
                   f"{f.qualname} renders the FETCH value but reads only {sorted(keys) or 'none'} of the options "
                   f"{list(OPTION_KEYS)}: FETCH ... WITH TIES / PERCENT would be rendered as a plain row count",
@@ -853,3 +1147,74 @@ R.mutant("benign-oracle-early-returns", OR,
              "        if select._fetch_clause is not None:\n            return super()._row_limit_clause(\n                select, use_literal_execute_for_simple_int=True, **kw\n            )\n        if not self.dialect._supports_offset_fetch:\n            return super()._row_limit_clause(\n                select, use_literal_execute_for_simple_int=True, **kw\n            )\n        return self.fetch_clause(\n            select,\n            fetch_clause=self._get_limit_or_fetch(select),\n            use_literal_execute_for_simple_int=True,\n            **kw,\n        )\n"), None)
 R.mutant("benign-oracle-passes-limit-itself", OR,
          sub("                fetch_clause=self._get_limit_or_fetch(select),\n                use_literal_execute_for_simple_int=True,\n", "                fetch_clause=select._limit_clause,\n                use_literal_execute_for_simple_int=True,\n"), None)
+
+# ---- rob-H2: shape variants (guards as early return / boolean local / nested ifs, helpers extracted, f-strings, result of _make_slice via locals); benign must stay silent
+R.mutant('benign-mssql-guard-bool-local-early-return', 'dialects/mssql/base.py',
+         sub('        if (\n            select._has_row_limiting_clause\n            and not self.dialect._supports_offset_fetch\n            and not self._use_top(select)\n            and not getattr(select, "_mssql_visit", None)\n        ):\n            self._check_can_use_fetch_limit(select)\n\n            _order_by_clauses = [',
+             '        needs_wrapper = (\n            select._has_row_limiting_clause\n            and not self.dialect._supports_offset_fetch\n            and not self._use_top(select)\n        )\n        if not needs_wrapper or getattr(select, "_mssql_visit", None):\n            return select\n        if True:\n            self._check_can_use_fetch_limit(select)\n\n            _order_by_clauses = ['), None)
+R.mutant('benign-mssql-guard-nested-ifs', 'dialects/mssql/base.py',
+         sub('        if (\n            select._has_row_limiting_clause\n            and not self.dialect._supports_offset_fetch\n            and not self._use_top(select)\n            and not getattr(select, "_mssql_visit", None)\n        ):\n            self._check_can_use_fetch_limit(select)\n',
+             '        already_wrapped = getattr(select, "_mssql_visit", None)\n        if (\n            select._has_row_limiting_clause\n            and not already_wrapped\n            and not (\n                self.dialect._supports_offset_fetch or self._use_top(select)\n            )\n        ):\n            self._check_can_use_fetch_limit(select)\n'), None)
+R.mutant('benign-mssql-order-by-built-by-loop', 'dialects/mssql/base.py',
+         sub('            _order_by_clauses = [\n                sql_util.unwrap_label_reference(elem)\n                for elem in select._order_by_clause.clauses\n            ]\n',
+             '            _order_by_clauses = []\n            for elem in select._order_by_clause.clauses:\n                _order_by_clauses.append(\n                    sql_util.unwrap_label_reference(elem)\n                )\n'), None)
+R.mutant('benign-mssql-wrapper-tail-extracted-helper', 'dialects/mssql/base.py',
+         sub('            mssql_rn = sql.column("mssql_rn")\n            limitselect = sql.select(\n                *[c for c in select.c if c.key != "mssql_rn"]\n            )\n            if offset_clause is not None:\n                limitselect = limitselect.where(mssql_rn > offset_clause)\n                if limit_clause is not None:\n                    limitselect = limitselect.where(\n                        mssql_rn <= (limit_clause + offset_clause)\n                    )\n            else:\n                limitselect = limitselect.where(mssql_rn <= (limit_clause))\n            return limitselect\n        else:\n            return select\n',
+             '            return self._row_number_window(select, limit_clause, offset_clause)\n        else:\n            return select\n\n    def _row_number_window(self, inner, limit_clause, offset_clause):\n        mssql_rn = sql.column("mssql_rn")\n        limitselect = sql.select(*[c for c in inner.c if c.key != "mssql_rn"])\n        if offset_clause is None:\n            return limitselect.where(mssql_rn <= limit_clause)\n        limitselect = limitselect.where(mssql_rn > offset_clause)\n        if limit_clause is not None:\n            upper = limit_clause + offset_clause\n            limitselect = limitselect.where(mssql_rn <= upper)\n        return limitselect\n'), None)
+R.mutant('benign-mssql-generated-select-named', 'dialects/mssql/base.py',
+         sub('            select = select._generate()\n            select._mssql_visit = True\n            select = (\n                select.add_columns(',
+             '            generated = select._generate()\n            generated._mssql_visit = True\n            select = (\n                generated.add_columns('), None)
+R.mutant('benign-oracle-guard-early-return', 'dialects/oracle/base.py',
+         sub('        if not getattr(select, "_oracle_visit", None):\n            if not self.dialect.use_ansi:',
+             '        visited = getattr(select, "_oracle_visit", None)\n        if visited:\n            return select\n        if True:\n            if not self.dialect.use_ansi:'), None)
+R.mutant('benign-oracle-guard-split-nested', 'dialects/oracle/base.py',
+         sub('            if (\n                select._has_row_limiting_clause\n                and not self.dialect._supports_offset_fetch\n                and select._fetch_clause is None\n            ):\n                limit_clause = select._limit_clause',
+             '            emulate = not self.dialect._supports_offset_fetch\n            if (\n                select._has_row_limiting_clause\n                and emulate\n                and select._fetch_clause is None\n            ):\n                limit_clause = select._limit_clause'), None)
+R.mutant('r3-mssql-early-return-forgets-marker', 'dialects/mssql/base.py',
+         sub('        if (\n            select._has_row_limiting_clause\n            and not self.dialect._supports_offset_fetch\n            and not self._use_top(select)\n            and not getattr(select, "_mssql_visit", None)\n        ):\n            self._check_can_use_fetch_limit(select)\n',
+             '        if (\n            not select._has_row_limiting_clause\n            or self.dialect._supports_offset_fetch\n            or self._use_top(select)\n        ):\n            return select\n        if True:\n            self._check_can_use_fetch_limit(select)\n'), 'C18-R3')
+R.mutant('r3-mssql-bool-local-drops-row-limiting-test', 'dialects/mssql/base.py',
+         sub('        if (\n            select._has_row_limiting_clause\n            and not self.dialect._supports_offset_fetch\n            and not self._use_top(select)\n            and not getattr(select, "_mssql_visit", None)\n        ):\n            self._check_can_use_fetch_limit(select)\n',
+             '        needs_wrapper = not self.dialect._supports_offset_fetch and not self._use_top(select)\n        if needs_wrapper and not getattr(select, "_mssql_visit", None):\n            self._check_can_use_fetch_limit(select)\n'), 'C18-R3')
+R.mutant('r3-oracle-wrapper-even-with-offset-fetch', 'dialects/oracle/base.py',
+         sub('                select._has_row_limiting_clause\n                and not self.dialect._supports_offset_fetch\n                and select._fetch_clause is None\n',
+             '                select._has_row_limiting_clause\n                and select._fetch_clause is None\n'), 'C18-R3')
+R.mutant('r3-mssql-order-by-loop-over-group-by', 'dialects/mssql/base.py',
+         sub('                for elem in select._order_by_clause.clauses\n',
+             '                for elem in select._group_by_clause.clauses\n'), 'C18-R3')
+R.mutant('benign-mysql-limit-fstrings', 'dialects/mysql/base.py',
+         sub('                return " \\n LIMIT %s, %s" % (\n                    self.process(offset_clause, **kw),\n                    self.process(limit_clause, **kw),\n                )',
+             '                skip = self.process(offset_clause, **kw)\n                count = self.process(limit_clause, **kw)\n                return f" \\n LIMIT {skip}, {count}"'), None)
+R.mutant('benign-base-limit-format-and-helper', 'sql/compiler.py',
+         sub('            text += " OFFSET " + self.process(select._offset_clause, **kw)\n        return text\n\n    def fetch_clause(',
+             '            text += self._offset_text(select, **kw)\n        return text\n\n    def _offset_text(self, select, **kw):\n        return " OFFSET {}".format(self.process(select._offset_clause, **kw))\n\n    def fetch_clause('), None)
+R.mutant('r2-mysql-fstring-swapped-operands', 'dialects/mysql/base.py',
+         sub('                return " \\n LIMIT %s, %s" % (\n                    self.process(offset_clause, **kw),\n                    self.process(limit_clause, **kw),\n                )',
+             '                skip = self.process(offset_clause, **kw)\n                count = self.process(limit_clause, **kw)\n                return f" \\n LIMIT {count}, {skip}"'), 'C18-R2')
+R.mutant('benign-slice-offset-arith-extracted-helper', 'sql/util.py',
+         sub('    elif start is not None and stop is None:\n        offset_clause = _offset_or_limit_clause_asint_if_possible(\n            offset_clause\n        )\n        if offset_clause is None:\n            offset_clause = 0\n\n        if start != 0:\n            offset_clause = offset_clause + start\n\n        if offset_clause == 0:\n            offset_clause = None\n        else:\n            offset_clause = _offset_or_limit_clause(offset_clause)\n\n    return limit_clause, offset_clause\n',
+             '    elif start is not None and stop is None:\n        offset_clause = _shift_offset(offset_clause, start)\n\n    return limit_clause, offset_clause\n\n\ndef _shift_offset(offset_clause, start):\n    current = _offset_or_limit_clause_asint_if_possible(offset_clause)\n    if current is None:\n        current = 0\n    shifted = current + start if start != 0 else current\n    if shifted == 0:\n        return None\n    return _offset_or_limit_clause(shifted)\n'), None)
+R.mutant('benign-slice-branches-inverted-early-returns', 'sql/util.py',
+         sub('    elif start is not None and stop is None:\n        offset_clause = _offset_or_limit_clause_asint_if_possible(\n            offset_clause\n        )\n        if offset_clause is None:\n            offset_clause = 0\n\n        if start != 0:\n            offset_clause = offset_clause + start\n\n        if offset_clause == 0:\n            offset_clause = None\n        else:\n            offset_clause = _offset_or_limit_clause(offset_clause)\n\n    return limit_clause, offset_clause\n',
+             '    elif start is not None and stop is None:\n        base = _offset_or_limit_clause_asint_if_possible(offset_clause)\n        new_offset = (0 if base is None else base) + start\n        if new_offset != 0:\n            return limit_clause, _offset_or_limit_clause(new_offset)\n        return limit_clause, None\n\n    return limit_clause, offset_clause\n'), None)
+R.mutant('benign-slice-stop-only-first', 'sql/util.py',
+         sub('    if start is not None and stop is not None:\n        offset_clause = _offset_or_limit_clause_asint_if_possible(',
+             '    if start is None and stop is None:\n        return limit_clause, offset_clause\n    if start is not None and stop is not None:\n        offset_clause = _offset_or_limit_clause_asint_if_possible('), None)
+R.mutant('r4-extracted-helper-drops-existing-offset', 'sql/util.py',
+         sub('    elif start is not None and stop is None:\n        offset_clause = _offset_or_limit_clause_asint_if_possible(\n            offset_clause\n        )\n        if offset_clause is None:\n            offset_clause = 0\n\n        if start != 0:\n            offset_clause = offset_clause + start\n\n        if offset_clause == 0:\n            offset_clause = None\n        else:\n            offset_clause = _offset_or_limit_clause(offset_clause)\n\n    return limit_clause, offset_clause\n',
+             '    elif start is not None and stop is None:\n        offset_clause = _shift_offset(offset_clause, start)\n\n    return limit_clause, offset_clause\n\n\ndef _shift_offset(offset_clause, start):\n    if start == 0:\n        return None\n    current = _offset_or_limit_clause_asint_if_possible(offset_clause)\n    if current is None:\n        current = 0\n    return _offset_or_limit_clause(current + start)\n'), 'C18-R4')
+R.mutant('benign-query-slice-result-via-locals', 'orm/query.py',
+         sub('        self._limit_clause, self._offset_clause = sql_util._make_slice(\n            self._limit_clause, self._offset_clause, start, stop\n        )',
+             '        current_limit = self._limit_clause\n        new_limit, new_offset = sql_util._make_slice(\n            current_limit, self._offset_clause, start, stop\n        )\n        self._offset_clause = new_offset\n        self._limit_clause = new_limit'), None)
+R.mutant('benign-select-slice-result-indexed', 'sql/selectable.py',
+         sub('        self._limit_clause, self._offset_clause = sql_util._make_slice(\n            self._limit_clause, self._offset_clause, start, stop\n        )',
+             '        sliced = sql_util._make_slice(\n            self._limit_clause, self._offset_clause, start, stop\n        )\n        self._limit_clause = sliced[0]\n        self._offset_clause = sliced[1]'), None)
+R.mutant('r4-query-slice-locals-stored-swapped', 'orm/query.py',
+         sub('        self._limit_clause, self._offset_clause = sql_util._make_slice(\n            self._limit_clause, self._offset_clause, start, stop\n        )',
+             '        new_limit, new_offset = sql_util._make_slice(\n            self._limit_clause, self._offset_clause, start, stop\n        )\n        self._offset_clause = new_limit\n        self._limit_clause = new_offset'), 'C18-R4')
+R.mutant('benign-mssql-options-check-bool-local', 'dialects/mssql/base.py',
+         sub('        if select._fetch_clause_options is not None and (\n            select._fetch_clause_options["percent"]\n            or select._fetch_clause_options["with_ties"]\n        ):\n            raise exc.CompileError(',
+             '        options = select._fetch_clause_options\n        uses_top_only_options = options is not None and (\n            options["percent"] or options["with_ties"]\n        )\n        if uses_top_only_options:\n            raise exc.CompileError('), None)
+R.mutant('benign-pg-fetch-suffix-helper', 'dialects/postgresql/base.py',
+         sub('                (\n                    "WITH TIES"\n                    if select._fetch_clause_options["with_ties"]\n                    else "ONLY"\n                ),\n            )\n        return text\n',
+             '                self._fetch_suffix(select),\n            )\n        return text\n\n    def _fetch_suffix(self, select):\n        if select._fetch_clause_options["with_ties"]:\n            return "WITH TIES"\n        return "ONLY"\n'), None)
